@@ -50,7 +50,7 @@ VIX = "dask_array.slicing._vindex"
 ARG = "dask_array.creation._arange"
 DB = "dask.blockwise"
 MT = "dask_array._materialize"
-MODS = [MT, "dask_array.slicing._blocks", "dask_array.slicing._setitem", "dask_array.core._blockwise_funcs", "dask_array.core._conversion", EX, BW, CU, RC, FA, IOB, SB, SU, "dask_array.slicing", CO, NC, TR, XP, SQ, BT, CC, SK, RD, RCM, SHF, VIX, ARG, "dask_array._overlap", "dask_array._map_blocks", "dask_array._chunk", "dask.layers", "dask_array.reductions._sliding_window", "dask_array.manipulation._reshape", "dask_array.reductions._arg_reduction", "dask_array.creation._diag", "dask_array.creation._diagonal", "dask_array.routines._unique", "dask_array.creation._ones_zeros", "dask_array.creation._utils", "dask_array.routines._topk", "dask_array.io._from_graph", "dask_array.manipulation._roll", "dask_array.manipulation._flip", "dask_array.creation._tile", "dask_array.creation._pad", "dask_array.creation._repeat", "dask_array.routines._diff", "dask_array.reductions._cumulative", "dask_array.routines._where", "dask_array.stacking._block", "dask_array.stacking._simple", "dask_array.routines._insert_delete", "dask_array.routines._triangular", "dask_array.routines._outer", "dask_array._ufunc", "dask_array.routines._gradient", DB]
+MODS = [MT, "dask_array.creation._eye", "dask_array.slicing._blocks", "dask_array.slicing._setitem", "dask_array.core._blockwise_funcs", "dask_array.core._conversion", EX, BW, CU, RC, FA, IOB, SB, SU, "dask_array.slicing", CO, NC, TR, XP, SQ, BT, CC, SK, RD, RCM, SHF, VIX, ARG, "dask_array._overlap", "dask_array._map_blocks", "dask_array._chunk", "dask.layers", "dask_array.reductions._sliding_window", "dask_array.manipulation._reshape", "dask_array.reductions._arg_reduction", "dask_array.creation._diag", "dask_array.creation._diagonal", "dask_array.routines._unique", "dask_array.creation._ones_zeros", "dask_array.creation._utils", "dask_array.routines._topk", "dask_array.io._from_graph", "dask_array.manipulation._roll", "dask_array.manipulation._flip", "dask_array.creation._tile", "dask_array.creation._pad", "dask_array.creation._repeat", "dask_array.routines._diff", "dask_array.reductions._cumulative", "dask_array.routines._where", "dask_array.stacking._block", "dask_array.stacking._simple", "dask_array.routines._insert_delete", "dask_array.routines._triangular", "dask_array.routines._outer", "dask_array._ufunc", "dask_array.routines._gradient", DB]
 STUBS = SHIM_LIST + [
     "concatenate3 -> the array model's nested concatenation (called by the repository's own finalize and as a block kernel)",
     "expression classes -> symx.nodes (real methods on cloned code; constructors/tokenize bypassed, structural names); the "
@@ -731,6 +731,14 @@ def _map2_over_sliding(w, E):
     return p_map2(w, r, y)
 
 
+def p_eye(w, E, N, chunks, M):
+    """da.eye(N, chunks, M, k) with a symbolic diagonal offset k (the grid is concrete): ones exactly where column - row == k"""
+    k = E.int("k", -N, M)
+    out = w.fn("dask_array.creation._eye", "eye")(N, chunks=chunks, M=M, k=k)
+    ref = SArr((N, M), lambda idx: z3.If(idx[1] - idx[0] == core._z(k), z3.RealVal(1), z3.RealVal(0)))
+    return Prog(out.expr, ref, {})
+
+
 def p_view(w, E, p, dtype, order="C"):
     """x.view(dtype, order): the bytes reinterpreted under another item size (shapes are modelled, content is an
     uninterpreted function of the elements it is made of)"""
@@ -936,6 +944,8 @@ def programs(tier):
     reg("append(x2,y2)", lambda w, E: (lambda a, b: Prog(w.fn(IDm, "append")(w.fn(NC, "new_collection")(a.node), w.fn(NC, "new_collection")(b.node)).expr,
                                                             np.concatenate([a.ref, b.ref]), {**a.dsk, **b.dsk}))(source(w, E, "x", (2,)), source(w, E, "y", (2,))), 2)
     CMm = "dask_array.reductions._cumulative"
+    reg("eye(3,chunks=5,M=12,k)", lambda w, E: p_eye(w, E, 3, 5, 12), 3)
+    reg("eye(7,chunks=3,M=5,k)", lambda w, E: p_eye(w, E, 7, 3, 5), 3)
     # moments of order 0 / 1 are constants by definition; keepdims still shapes them
     reg("moment(x2x2,0,axis=1,keepdims)", lambda w, E: p_pub(w, source(w, E, "x", (2, 2)), RCM, "moment", lambda X: SArr((X.shape[0], 1), lambda idx: z3.RealVal(1)), 0, axis=1, keepdims=True), 2)
     reg("moment(x2x2,1,axis=0,keepdims)", lambda w, E: p_pub(w, source(w, E, "x", (2, 2)), RCM, "moment", lambda X: SArr((1, X.shape[1]), lambda idx: z3.RealVal(0)), 1, axis=0, keepdims=True), 2)
